@@ -278,6 +278,7 @@ type endpoint struct {
 
 type Cand struct {
 	Kind string // rv | bsend | brecv | rclosed | default | close | wgadd | wgwait | cancel | yield
+	Miss bool   // default taken although a partner waits on an unbuffered channel (see enumerate)
 	A, B endpoint
 	Obj  *Object
 	En   T
@@ -387,6 +388,8 @@ func (m *Machine) enumerate() []*Cand {
 	sort.Slice(chans, func(i, j int) bool { return chans[i].ID < chans[j].ID })
 	sendReady := map[*Object]T{}
 	recvReady := map[*Object]T{}
+	sendReadyNoPartner := map[*Object]T{}
+	recvReadyNoPartner := map[*Object]T{}
 	for _, o := range chans {
 		closed, ln, cp := m.chanState(o)
 		z := m.IntC(0)
@@ -433,21 +436,36 @@ func (m *Machine) enumerate() []*Cand {
 		}
 		sendReady[o] = c.Or(closed, m.slt(ln, cp), c.And(unbuf, c.Or(partnersForSend...)))
 		recvReady[o] = c.Or(closed, m.slt(z, ln), c.And(unbuf, c.Or(partnersForRecv...)))
+		sendReadyNoPartner[o] = c.Or(closed, m.slt(ln, cp))
+		recvReadyNoPartner[o] = c.Or(closed, m.slt(z, ln))
 	}
 	for _, s := range selects {
-		var anyReady []T
+		var anyReady, anyReadyNoPartner []T
 		for _, sc := range s.op.Cases {
 			for _, a := range sc.Ch.Alts {
 				if sc.Send {
 					anyReady = append(anyReady, c.And(a.G, sendReady[a.Obj]))
+					anyReadyNoPartner = append(anyReadyNoPartner, c.And(a.G, sendReadyNoPartner[a.Obj]))
 				} else {
 					anyReady = append(anyReady, c.And(a.G, recvReady[a.Obj]))
+					anyReadyNoPartner = append(anyReadyNoPartner, c.And(a.G, recvReadyNoPartner[a.Obj]))
 				}
 			}
 		}
 		en := c.And(s.it.G, c.Not(c.Or(anyReady...)))
 		if !en.IsFalse() {
 			cands = append(cands, &Cand{Kind: "default", A: endpoint{it: s.it, op: s.op}, En: en, Desc: "select default " + m.itemDesc(s.it)})
+		}
+		// a poll (select with default) whose only ready cases are rendezvous with a goroutine waiting on an
+		// unbuffered channel can also miss: moves are communications, the local code a goroutine runs between
+		// two of them is folded into the earlier one, so "the partner has not reached its channel operation
+		// yet" is a schedule of the real program that the model would otherwise never show. The deterministic
+		// policies take this alternative last (never), "pollmiss" takes it first; symbolic steps offer it.
+		if m.PollMiss {
+			en2 := c.And(s.it.G, c.Or(anyReady...), c.Not(c.Or(anyReadyNoPartner...)))
+			if !en2.IsFalse() {
+				cands = append(cands, &Cand{Kind: "default", Miss: true, A: endpoint{it: s.it, op: s.op}, En: en2, Desc: "select default (partner not at its channel operation yet) " + m.itemDesc(s.it)})
+			}
 		}
 	}
 	// a non-blocking select whose partner is itself must not rendezvous with partner-less polls: handled by readiness.
@@ -1017,6 +1035,11 @@ func (m *Machine) orderCands(cands []*Cand) {
 		for k, i := range idxs {
 			cands[i] = sub[k]
 		}
+	}
+	if strings.Contains(m.Policy, "pollmiss") {
+		sort.SliceStable(cands, func(i, j int) bool { return cands[i].Miss && !cands[j].Miss })
+	} else {
+		sort.SliceStable(cands, func(i, j int) bool { return !cands[i].Miss && cands[j].Miss })
 	}
 	if len(cands) > 0 {
 		first := cands[0]
